@@ -133,6 +133,18 @@ func dynInputs(r *eng.Rng) []dynIn {
 		add(mk, "(GMap "+mt(false, true, false, "EString", true)+" false "+ec+")")
 		add(mik, "(GMap "+mt(false, false, false, "EString", true)+" false "+ec+")")
 		add(msl, "(GMap "+mt(false, true, true, "EOtherKind", false)+" false "+ec+")")
+		// typed maps of the other numeric widths are not records (only int, float64, bool, string and any are)
+		mi64, mi32, mi8, mf32, mu := map[string]int64{}, map[string]int32{}, map[string]int8{}, map[string]float32{}, map[string]uint{}
+		j := 0
+		for k := range present {
+			mi64[k], mi32[k], mi8[k], mf32[k], mu[k] = (1<<53)+1+int64(j), int32(j+1), int8(j+1), float32(j)+0.5, uint(j+1)
+			j++
+		}
+		add(mi64, "(GMap "+mt(false, true, true, "EOtherKind", false)+" false "+nc+")")
+		add(mi32, "(GMap "+mt(false, true, true, "EOtherKind", false)+" false "+nc+")")
+		add(mi8, "(GMap "+mt(false, true, true, "EOtherKind", false)+" false "+nc+")")
+		add(mf32, "(GMap "+mt(false, true, true, "EOtherKind", false)+" false "+nc+")")
+		add(mu, "(GMap "+mt(false, true, true, "EOtherKind", false)+" false "+nc+")")
 		// pointers of several depths, nil at every level
 		pm := &ma
 		ppm := &pm
